@@ -10,13 +10,17 @@ package regex
 // Regex{} returned next to an error is never matched against).
 
 //@ func NewNoop
+//@   assigns nothing
 //@   ensures [usable] len(result.flags) == 1 && result.flags[0] == Noop && result.initialized
 
 //@ func New
+//@   ensures [every-line-patterns] implies(regexStr == "" || regexStr == "." || regexStr == ".*", isnil(result1) && result0.flags[0] == Noop)
+//@   ensures [flag-kept] implies(isnil(result1) && !(regexStr == "" || regexStr == "." || regexStr == ".*"), result0.flags[0] == flag && result0.regexStr == regexStr && result0.re.pattern == regexStr)
 //@   ensures [usable] implies(isnil(result1), len(result0.flags) >= 1 && implies(result0.flags[0] == Default || result0.flags[0] == Invert, result0.re != nil))
 
 //@ func new
-//@   ensures [usable] implies(isnil(result1), len(result0.flags) >= 1 && result0.re != nil && result0.initialized && result0.regexStr == regexStr)
+//@   assigns nothing
+//@   ensures [usable] implies(isnil(result1), len(result0.flags) >= 1 && result0.re != nil && result0.initialized && result0.regexStr == regexStr && result0.re.pattern == regexStr)
 //@   ensures [flags-kept] implies(isnil(result1) && len(flags) >= 1, len(result0.flags) == len(flags) && result0.flags[0] == flags[0])
 //@   ensures [flags-default] implies(isnil(result1) && len(flags) == 0, len(result0.flags) == 1 && result0.flags[0] == Default)
 
@@ -26,6 +30,8 @@ package regex
 //@ func (Regex).Match
 //@   requires [usable] len(r.flags) >= 1 && implies(r.flags[0] == Default || r.flags[0] == Invert, r.re != nil)
 //@   assigns nothing
+//@   ensures [selection] result == reSel(r, str(bytes))
 //@ func (Regex).MatchString
 //@   requires [usable] len(r.flags) >= 1 && implies(r.flags[0] == Default || r.flags[0] == Invert, r.re != nil)
 //@   assigns nothing
+//@   ensures [selection] result == reSel(r, str)
